@@ -226,6 +226,10 @@ pub fn child_main(args: &[String]) -> i32 {
     let (schema, f) = hist_schema();
     let Ok(index) = Index::create(d, schema, Default::default()) else { return 4 };
     let Ok(mut w) = writer(&index, WriterCfg { threads: case.threads.clamp(1, 3) as usize, flush_every: 2, table_bits: 10, merge_threads: 2 }) else { return 4 };
+    // merges only where the program asks for one (and waits for it): a policy merge that ends while commit() is
+    // returning rewrites meta.json a second time inside the commit window, and the per-commit rule below could not
+    // tell the two renames apart (the trace carries no payload)
+    w.set_merge_policy(Box::new(tantivy::indexer::NoMergePolicy));
     let mut next_uid = 0u64;
     let mut commits = 0u32;
     let ops: Vec<IOp> = case.index_ops.iter().cloned().chain(std::iter::once(IOp::Commit)).collect();
